@@ -59,12 +59,12 @@ RESERVED = [K("k3::S-Repeat-reserved"), K("k3::S-Define-reserved"), K("k3::S-Def
             K("k3::S-Define-tuple-reserved"), K("k3::S-Define-tuple-reserved-first"),
             K("k3::S-Repeat-tuple-reserved")]
 S_TALES = [K("k3::S-Pipe3"), K("k3::S-Same-not-twice"), K("k3::S-Same-exists-twice"), K("k3::S-Same-string-twice"), K("k3::S-Not"), K("k3::S-Exists"), K("k3::S-LambdaScope")]
-S_INTERP = [K("k3::S-Interp-braces"), K("k3::S-Interp-text"), K("k3::S-Interp-off"), K("k3::S-Interp-lines"),
+S_INTERP = [K("k3::S-Interp-braces"), K("k3::S-Cdata-entity"), K("k3::S-Interp-text"), K("k3::S-Interp-off"), K("k3::S-Interp-lines"),
             K("k3::S-Interp-percent"), K("k3::S-Cdata-then-text")]
 S_I18N = [K("k3::S-Translate-name"), K("k3::S-Translate-name-condition"), K("k3::S-Translate-id"), K("k3::S-Translate-empty"),
           K("k3::S-I18nDomain"), K("k3::S-I18nContext"), K("k3::S-I18nTarget"), K("k3::S-I18nAttributes"), K("k3::S-I18nAttributes-two"),
           K("k3::S-Content-translate")]
-S_METAL = [K("k3::S-UseExternal"), K("k3::S-TemplateBody-slot"), K("k3::S-MacroUseInternal"), K("k3::S-MacroBody"), K("k3::S-TwoMacros"),
+S_METAL = [K("k3::S-UseExternal"), K("k3::S-UseExternal-filler-define"), K("k3::S-TemplateBody-slot"), K("k3::S-MacroUseInternal"), K("k3::S-MacroBody"), K("k3::S-TwoMacros"),
            K("k3::S-MacroBody-slot-define"),
            K("k3::S-MacroUseInternal-after-expr")]
 K2Q = [K("compiler.py::K2.__quote"), K("compiler.py::K2.__quote@char"), K("compiler.py::K2.__convert"),
@@ -126,6 +126,8 @@ PROPS = {
         "and the escape routine itself (K2) maps `default` to the static text as written.",
         [K("k3::S-Attribute"), K("k3::S-Attribute-quotes"), K("k3::S-Attribute-dict"), K("k3::S-Attribute-dict-first")] + K2Q +
         [U('bounded.units', 'attrs', 'B-ATTR'), U('bounded.units', 'split', 'B-SPLIT'),
+         # which static attributes are template-language markup (dropped) and which only look like it
+         U('pyvc.spelling', 'unit', 'spelling', needs_k3=True),
          # boolean / implicit attribute options decide how attributes render: a compiled module must
          # never be shared between two settings of them
          U('pyvc.frames', 'digest_injective', 'digest.distinguishes_options')],
@@ -136,7 +138,7 @@ PROPS = {
         "context, current i18n parameters, macroname bound, globals merged back) and the slot "
         "protocol of a macro body (filler taken once, called instead of the default content) are "
         "proved on the emitted code.",
-        S_METAL + [K("zpt/template.py::Macros.__getitem__")],
+        S_METAL + [K("zpt/template.py::Macros.__getitem__"), K("zpt/template.py::PageTemplate.include")],
         ["'equals inlining' is reduced to calling convention + slot protocol + A-COMP",
          "extend-macro chains and nested uses (deque discipline across call histories)",
          "Macros.names, PageTemplate.include"]),
@@ -146,7 +148,7 @@ PROPS = {
         "computed default and the current domain/context/target, to output exactly its result, and "
         "to skip empty content; domain/context/target are set for the subtree and restored; message "
         "objects are offered to translate exactly once by the conversion routine (K2).",
-        S_I18N + [K("compiler.py::K2.__quote"), K("k3::S-OnError-in-translate"),
+        S_I18N + [K("compiler.py::K2.__quote"), K("compiler.py::K2.__convert"), K("k3::S-OnError-in-translate"),
                   # the wrapper render() puts around the translation function when an encoding is set
                   K("zpt/template.py::PageTemplate.render.translate"),
                   U('pyvc.regexlang', 'whitespace_unit', 'prelude.__re_whitespace')] + [FRESH],
@@ -247,7 +249,7 @@ PROPS = {
                       "cook_check. Package-relative ('pkg:path') specs and search paths are excluded by "
                       "precondition. The @cache decorator of load is under contract "
                       "(same arguments => the instance created the first time, loaded once).",
-        "units": [K("template.py::BaseTemplateFile.cook_check"), K("loader.py::TemplateLoader.load"),
+        "units": [K("template.py::BaseTemplateFile.cook_check"), K("zpt/template.py::PageTemplate.include"), K("loader.py::TemplateLoader.load"),
                   K("loader.py::cache.load"), K("zpt/template.py::Macros.__getitem__"),
                   K("zpt/loader.py::TemplateLoader.load"), K("zpt/template.py::PageTemplateFile.__init__.post_init"),
                   U('pyvc.frames', 'search_path_frame', 'search_path_frame'),
@@ -281,6 +283,7 @@ PROPS = {
         "compilation is checked to reject the same template with that token and offset.",
         [K("k3::S-Deferred"), K("k3::S-Deferred-empty"), K("k3::S-Deferred-twice"), K("k3::S-Strict-rejects"),
          K("k3::S-Strict-rejects-pipe-tail"), K("k3::S-Strict-rejects-pipe-middle"),
+         K("k3::S-Strict-rejects-second-macro"),
          U('pyvc.frames', 'strict_reads_frame', 'strict.reads_frame'),
          U('pyvc.frames', 'strict_identity', 'strict_identity', needs_k3=True),
          U('pyvc.frames', 'cook_error_frame', '_cook.error_frame')],
